@@ -224,7 +224,7 @@ def make_cases(rng, nproj, root):
         for (ln, col, word) in tail_pos + [p for p in sample if p not in tail_pos]:
             c = col + rng.randint(0, len(word))
             for m in ('infer', 'goto', 'goto_fi', 'help', 'refs', 'refs_file', 'context'):
-                if m in ('infer', 'goto') or rng.random() < 0.45:
+                if m == 'infer' or rng.random() < 0.3:
                     qs.append((m, ln, c))
         last = len(lines[-1]) if lines else 0
         lastline = len(lines)
@@ -242,7 +242,7 @@ def make_cases(rng, nproj, root):
     for _ in range(nproj):
         sib = rng.random() < 0.7
         files, base, tails = gen_project(rng, with_siblings=sib)
-        add(pid, files, base, sib or rng.random() < 0.5, 7)
+        add(pid, files, base, sib or rng.random() < 0.5, 5)
         pid += 1
         for kind, t in rng.sample(tails, min(len(tails), 3)):
             add(pid, files, base + t, sib or rng.random() < 0.5, 2)
@@ -403,7 +403,7 @@ def observe(method, result, root):
     if method in ('complete', 'complete_fuzzy', 'complete_search'):
         rec['final'] = [comp_out_of(c) for c in result]
         # the public, inferred attribute for names a user looks at
-        rec['types'] = [[c.name, _safe(lambda: c.type)] for c in result if not c.name.startswith('__')][:40]
+        rec['types'] = [[c.name, _safe(lambda: c.type)] for c in [c for c in result if not c.name.startswith('__')][:12]]
         if Cap.comp is not None and method != 'complete_search':
             cp = Cap.comp
             from jedi.api import helpers as H
@@ -491,14 +491,17 @@ def worker_main(jobfile, outfile):
     install_capture()
     out = {}
     for case in job['cases']:
+        # one Script per case and the same query sequence in every process: the history is the same
+        # everywhere, only hash seed and heap layout differ
+        try:
+            script = make_script(case)
+        except Exception as e:
+            for qi in range(len(case['queries'])):
+                out['%d:%d' % (case['id'], qi)] = dict(ok=False, exc=dict(exc_sig(e), phase='script'))
+            continue
         for qi, (method, line, col) in enumerate(case['queries']):
             if prng:
                 perturb_heap(prng, keep, 0, 300)
-            try:
-                script = make_script(case)        # a fresh Script per query: no history in this stream
-            except Exception as e:
-                out['%d:%d' % (case['id'], qi)] = dict(ok=False, exc=dict(exc_sig(e), phase='script'))
-                continue
             out['%d:%d' % (case['id'], qi)] = run_one(script, method, line, col, case['root'])
     with open(outfile, 'w') as f:
         json.dump(out, f)
@@ -630,14 +633,14 @@ def stream_stub(ctx, coq):
     modules = stub_modules()
     ist = object()
     rng = ctx.rng
-    small = [(pos, pk, nm, 0) for pos in (None, (0, 0), (1, 0), (1, 4), (2, 0), (10, 0))
+    small = [(pos, pk, nm, 0) for pos in (None, (0, 0), (1, 4), (2, 0), (10, 0))
              for pk in (None, '/p/a.py', '/p/b.py') for nm in ('a', 'B')]
     wide_pos = [None, (0, 0), (1, 0), (1, 4), (1, 10), (2, 0), (9, 3), (10, 0), (11, 2), (100, 1), (0, 5)]
     wide_path = list(modules)
     wide_name = ['a', 'b', 'B', 'ab', '_a', 'A', 'é', 'Z', 'z']
     lists = [[s] for s in small] + [[s, t] for s in small for t in small]
     n_ex = len(lists)
-    for _ in range(ctx.n(700, 5000)):
+    for _ in range(ctx.n(450, 5000)):
         k = rng.randint(2, 8)
         pool = [(rng.choice(wide_pos), rng.choice(wide_path), rng.choice(wide_name), 0)
                 for _ in range(rng.randint(1, 6))]
@@ -650,11 +653,11 @@ def stream_stub(ctx, coq):
             l2 = l[:]
             rng.shuffle(l2)
             lists.append(l2)
-    sort_cases, infer_cases, goto_cases, eq_cases = [], [], [], []
     metas = []
     pay = lambda x: x
     idn = lambda x: 0
     by_set = {}
+    n_set = 0
     for li, l in enumerate(lists):
         objs = [classes.Name(ist, SName(s, modules)) for s in l]
         back = {id(o): s for o, s in zip(objs, l)}
@@ -673,14 +676,18 @@ def stream_stub(ctx, coq):
             len({(tuple(s[0]) if s[0] else None, spec_path(s[1]), s[2]) for s in l})
         ctx.count('stub', ('L', tuple(l)), nontrivial=len(l) > 1)
         gl = g_reslist([spec_res(s) for s in l], pay, idn)
-        sort_cases.append('(%s, %s)' % (gl, g_reslist([spec_res(s) for s in out_sort], pay, idn)))
+        g_set = g_goto = 'None'
+        if wf:       # with start_pos None next to (0, 0) the set order shows through: nothing to predict
+            n_set += 1
+            g_set = '(Some %s)' % g_reslist([spec_res(s) for s in out_set], pay, idn)
+            g_goto = '(Some %s)' % g_reslist([spec_res(s) for s in sorted(out_goto, key=lambda s: key_of(spec_res(s)))], pay, idn)
+        coq.add('stub', '(JStub %s %s %s %s)' % (gl, g_reslist([spec_res(s) for s in out_sort], pay, idn), g_set, g_goto),
+                'helpers.sorted_definitions on a list / on set(list) with the real Name.__eq__/__hash__ / list(set(sorted)) '
+                'vs sort_defs / infer_out / goto_canon', dict(enumeration=l))
         metas.append(('sort', l, out_sort))
-        if wf:
-            infer_cases.append('(%s, %s)' % (gl, g_reslist([spec_res(s) for s in out_set], pay, idn)))
-            goto_canon = sorted(out_goto, key=lambda s: key_of(spec_res(s)))
-            goto_cases.append('(%s, %s)' % (gl, g_reslist([spec_res(s) for s in goto_canon], pay, idn)))
         if len(l) <= 2:
-            eq_cases.append('(%s, %s, %s)' % (g_res(spec_res(l[0]), pay, idn), g_res(spec_res(l[-1]), pay, idn), g_bool(eqs[0])))
+            coq.add('stub-eq', '(JEq %s %s %s)' % (g_res(spec_res(l[0]), pay, idn), g_res(spec_res(l[-1]), pay, idn), g_bool(eqs[0])),
+                    'Name.__eq__ vs name_eqb', dict(a=l[0], b=l[-1]))
             if eqs[0] != eqs[1] or (eqs[0] and not eqs[2]):
                 ctx.deviation(dict(stream='stub', cls='eq-ne-hash-inconsistent'), dict(a=l[0], b=l[-1], eq_ne_hash=eqs),
                               'Name.__eq__/__ne__/__hash__ are inconsistent')
@@ -693,20 +700,11 @@ def stream_stub(ctx, coq):
                               dict(enumeration_1=by_set[k][0], output_1=by_set[k][1], enumeration_2=l, output_2=o),
                               'sorted_definitions(set(defs)) differs for two enumerations of the same result set')
             by_set.setdefault(k, (l, o))
-            # and it is sorted by (path, line, column, name)
             ks = [key_of(r) for r in o]
             if ks != sorted(ks) or len(set(ks)) != len(ks):
                 ctx.deviation(dict(stream='stub', cls='not-sorted-or-duplicate'), dict(enumeration=l, output=o),
                               'infer-style output is not strictly increasing in (path, line, column, name)')
-    ctx.stat('stub_lists', dict(exhaustive=n_ex, seeded=len(lists) - n_ex, with_set=len(infer_cases)))
-    coq.add('stub-sort', "(fun c => let '(l, o) := c in list_res_eqb (sort_defs l) o)", sort_cases, 600,
-            'helpers.sorted_definitions(list) vs sort_defs')
-    coq.add('stub-set', "(fun c => let '(l, o) := c in list_res_eqb (infer_out l) o)", infer_cases, 600,
-            'helpers.sorted_definitions(set(list)) with the real Name.__eq__/__hash__ vs infer_out')
-    coq.add('stub-goto', "(fun c => let '(l, o) := c in list_res_eqb (goto_canon l) o)", goto_cases, 600,
-            'list(set(sorted_definitions(list))) (sorted) vs goto_canon')
-    coq.add('stub-eq', "(fun c => let '(a, b, e) := c in Bool.eqb (name_eqb a b) e)", eq_cases, 3000,
-            'Name.__eq__ vs name_eqb')
+    ctx.stat('stub_lists', dict(exhaustive=n_ex, seeded=len(lists) - n_ex, with_set=n_set))
     ctx.sample(dict(stream='stub', enumeration=lists[n_ex], sorted_definitions=metas[n_ex][2] if len(metas) > n_ex else None))
 
 
@@ -801,7 +799,7 @@ def stream_pipeline_prepare(ctx):
     tasks = {}
     for kind in ('infer', 'goto', 'refs'):
         cs = []
-        for _ in range(ctx.n(250, 2500)):
+        for _ in range(ctx.n(140, 2500)):
             pool = [(rng.choice(pos), rng.choice(paths), rng.choice(names), 0) for _ in range(rng.randint(1, 5))]
             l = [rng.choice(pool) for _ in range(rng.randint(0, 7))]
             if rng.random() < 0.3:
@@ -814,7 +812,7 @@ def stream_pipeline_prepare(ctx):
         tasks[kind] = cs
     cn = ['foo', 'Foo', 'fOO', 'fob', 'bar', 'Bar', '_foo', '_Foo', '__foo', '__Foo', 'éa', 'Éa', 'f', 'F']
     cs = []
-    for _ in range(ctx.n(300, 3000)):
+    for _ in range(ctx.n(200, 3000)):
         like = rng.choice(['', '', 'f', 'F', 'fo', 'b', '_', '__', 'é'])
         fuzzy = rng.random() < 0.3
         specs = [(rng.choice(cn), rng.random() < 0.08, rng.randint(0, 3)) for _ in range(rng.randint(0, 9))]
@@ -833,7 +831,6 @@ def stream_pipeline_finish(ctx, coq, tasks, results):
     idn = lambda x: 0
     for kind, cs in tasks.items():
         res = results[kind]
-        cases = []
         groups = {}
         for c, r in zip(cs, res):
             if not r['ok']:
@@ -847,7 +844,8 @@ def stream_pipeline_finish(ctx, coq, tasks, results):
                 enum = [(n, d, p) for (n, d, p) in specs if H.match(n.lower(), like_l, fuzzy=fuzzy)]
                 g_in = g_list([g_cres(n, d, p, pay) for (n, d, p) in enum], lambda x: x, 'cres')
                 g_out = g_list([g_cres(n, False, p, pay) for (n, p) in r['out']], lambda x: x, 'cres')
-                cases.append('(%s, %s, %s)' % (g_str(like), g_in, g_out))
+                coq.add('pipeline-complete', '(JComp %s %s %s)' % (g_str(like), g_in, g_out),
+                        'Script.complete post-processing (filter_names, sort) on stub names vs complete_out', dict(input=c))
                 # direct oracle: enumerations with the same survivors and no key tie give the same list
                 surv, seen = [], set()
                 for (n, d, p) in enum:
@@ -874,7 +872,10 @@ def stream_pipeline_finish(ctx, coq, tasks, results):
                 gl = g_reslist([spec_res(s) for s in specs], pay, idn)
                 if kind == 'goto':
                     outs = sorted(outs, key=lambda s: key_of(spec_res(s)))
-                cases.append('(%s, %s)' % (gl, g_reslist([spec_res(s) for s in outs], pay, idn)))
+                ctor = {'infer': 'JInfer', 'goto': 'JGoto', 'refs': 'JRefs'}[kind]
+                if wf or kind == 'refs':
+                    coq.add('pipeline-' + kind, '(%s %s %s)' % (ctor, gl, g_reslist([spec_res(s) for s in outs], pay, idn)),
+                            'Script.%s post-processing on stub engine results vs the model' % kind, dict(enumeration=c))
                 ident = lambda s: (s[0], spec_path(s[1]), s[2])
                 coherent = len({ident(s) + (s[3],) for s in specs}) == len({ident(s) for s in specs})
                 if coherent and kind in ('infer', 'goto'):
@@ -895,44 +896,90 @@ def stream_pipeline_finish(ctx, coq, tasks, results):
                     if ks != sorted(ks) or sorted(map(json.dumps, o)) != sorted(json.dumps(spec_res(s)) for s in specs):
                         ctx.deviation(dict(stream='pipeline', cls='refs-not-sorted-permutation'),
                                       dict(enumeration=c, output=o), 'get_references output is not the sorted input')
-        fn = {'infer': "(fun c => let '(l, o) := c in list_res_eqb (infer_out l) o)",
-              'goto': "(fun c => let '(l, o) := c in list_res_eqb (goto_canon l) o)",
-              'refs': "(fun c => let '(l, o) := c in list_res_eqb (refs_out l) o)",
-              'complete': "(fun c => let '(like, l, o) := c in list_cres_eqb (complete_out like l) o)"}[kind]
-        coq.add('pipeline-' + kind, fn, cases, 400,
-                'Script.%s post-processing on stub engine results vs the model' % kind)
     ctx.sample(dict(stream='pipeline', kind='infer', enumeration=tasks['infer'][0], output_indices=results['infer'][0]))
 
 
 # =====================================================================================
 # deferred Coq evaluation (all at the end, concurrently)
 # =====================================================================================
+JDEFS = """
+Inductive jcase :=
+| JStub (l srt : list res) (st gt : option (list res))
+| JEq (a b : res) (e : bool)
+| JSort (l o : list res) | JInfer (l o : list res) | JSame (l o : list res)
+| JGoto (l o : list res) | JRefs (l o : list res)
+| JComp (like : str) (l o : list cres)
+| JTrace (tr : list event) (o : obs_state).
+Definition jcheck (c : jcase) : bool :=
+  match c with
+  | JStub l srt st gt =>
+      list_res_eqb (sort_defs l) srt
+      && match st with Some o => list_res_eqb (infer_out l) o | None => true end
+      && match gt with Some o => list_res_eqb (goto_canon l) o | None => true end
+  | JEq a b e => Bool.eqb (name_eqb a b) e
+  | JSort l o => list_res_eqb (sort_defs l) o
+  | JInfer l o => list_res_eqb (infer_out l) o
+  | JSame l o => list_res_eqb l o
+  | JGoto l o => list_res_eqb (goto_canon l) o
+  | JRefs l o => list_res_eqb (refs_out l) o
+  | JComp like l o => list_cres_eqb (complete_out like l) o
+  | JTrace tr o => obs_eqb (run_trace tr idle_state) o
+  end.
+"""
+
+
 class CoqJobs:
+    """All model evaluations of a run are collected and evaluated once, at the end, in parallel shards."""
     def __init__(self, ctx):
         self.ctx = ctx
-        self.jobs = []
+        self.cases, self.info, self.seen = [], [], set()
+        self.terms, self.term_cb = [], []
 
-    def add(self, name, fn, cases, shard, what, metas=None, on_fail=None):
-        self.jobs.append(dict(name=name, fn=fn, cases=cases, shard=shard, what=what, metas=metas, on_fail=on_fail))
+    def add(self, name, term, what, meta=None):
+        if (name, term) in self.seen:
+            return
+        self.seen.add((name, term))
+        self.cases.append(term)
+        self.info.append((name, what, meta))
+
+    def classify(self, term, cb):
+        self.terms.append(term)
+        self.term_cb.append(cb)
 
     def run(self):
         from concurrent.futures import ThreadPoolExecutor
+        n = len(self.cases)
+        shard = max(120, -(-n // 12))
 
-        def one(j):
-            return common.coq_failing(IMPORTS, j['fn'], j['cases'], shard=j['shard'], timeout=900)
-        with ThreadPoolExecutor(max_workers=4) as ex:
-            results = list(ex.map(one, self.jobs))
-        for j, (fails, err) in zip(self.jobs, results):
-            self.ctx.cov.setdefault('coq_cases', {})[j['name']] = len(j['cases'])
-            if err:
-                raise RuntimeError('coq evaluation failed (%s): %s' % (j['name'], err))
-            for i in fails[:4]:
-                if j['on_fail']:
-                    j['on_fail'](i)
-                else:
-                    self.ctx.violation('obligation', dict(
-                        what='correspondence %s: %s — model and implementation differ (the direct oracle of this stream did not fail on it)' % (j['name'], j['what']),
-                        case=j['cases'][i][:3000], meta=(j['metas'][i] if j['metas'] else None)), nofail=True)
+        def ties():
+            return common.coq_failing(IMPORTS, 'jcheck', self.cases, shard=shard, timeout=1200, defs=JDEFS)
+
+        def classes():
+            if not self.terms:
+                return [], None
+            return common.coq_eval_N_lists(IMPORTS, '(fun x : list N => x)', self.terms,
+                                           shard=max(10, -(-len(self.terms) // 4)), timeout=1200)
+        with ThreadPoolExecutor(max_workers=2) as ex:
+            f1, f2 = ex.submit(ties), ex.submit(classes)
+            (fails, err), (vals, err2) = f1.result(), f2.result()
+        cnt = {}
+        for name, _, _ in self.info:
+            cnt[name] = cnt.get(name, 0) + 1
+        self.ctx.cov['coq_cases'] = cnt
+        self.ctx.cov['coq_classifications'] = len(self.terms)
+        if err or err2:
+            raise RuntimeError('coq evaluation failed: %s' % (err or err2))
+        for cb, v in zip(self.term_cb, vals):
+            cb(v)
+        per = {}
+        for i in fails:
+            name, what, meta = self.info[i]
+            per[name] = per.get(name, 0) + 1
+            if per[name] > 3:
+                continue
+            self.ctx.violation('obligation', dict(
+                what='correspondence %s: %s - model and implementation differ (the direct oracle of this stream did not fail on it)' % (name, what),
+                case=self.cases[i][:4000], meta=meta), nofail=True)
 
 
 # =====================================================================================
@@ -946,7 +993,7 @@ def launch_xproc(ctx, cases):
                 (rnd_seed, ctx.rng.randint(1, 10 ** 9)), ('0', ctx.rng.randint(1, 10 ** 9))]
     if not ctx.quick:
         variants += [(str(ctx.rng.randint(2, 4294967295)), ctx.rng.randint(1, 10 ** 9)) for _ in range(3)]
-    nshard = max(1, min(4, common.NPROC // len(variants)))
+    nshard = max(1, min(4 if not ctx.quick else 2, common.NPROC // len(variants)))
     shards = [cases[i::nshard] for i in range(nshard)]
     procs = []
     for vi, (hs, pert) in enumerate(variants):
@@ -994,64 +1041,36 @@ def final_view(method, rec, ist=lambda x: 0):
     return ('ok', json.dumps(items))
 
 
-def tie_cases_from(method, rec, coq_cases, seen):
+def tie_cases_from(coq, stream, method, rec, meta):
     """Gallina cases tying one observed query to the model"""
     if not rec['ok']:
         return
     pay, ist = Numbering(), Numbering()
-    for call in rec.get('calls', []):
+    calls = rec.get('calls', [])
+    for call in calls:
         if not all(res_ok(r) for r in call['inp'] + call['out'] + call['pre']):
             continue
         gi, go = g_reslist(call['inp'], pay, ist), g_reslist(call['out'], pay, ist)
-        c = '(%s, %s)' % (gi, go)
-        if ('sort', c) not in seen:
-            seen.add(('sort', c))
-            coq_cases['sort'].append(c)
+        coq.add(stream + '-sort', '(JSort %s %s)' % (gi, go),
+                'captured helpers.sorted_definitions input/output vs sort_defs', meta)
         if call['kind'] == 'set':
-            c = '(%s, %s)' % (g_reslist(call['pre'], pay, ist), go)
-            if ('infer', c) not in seen:
-                seen.add(('infer', c))
-                coq_cases['infer'].append(c)
-    calls = rec.get('calls', [])
+            coq.add(stream + '-infer', '(JInfer %s %s)' % (g_reslist(call['pre'], pay, ist), go),
+                    'captured enumeration of Script.infer before set() vs infer_out', meta)
     if method in ('infer', 'refs', 'refs_file') and calls and all(res_ok(r) for r in rec['final'] + calls[-1]['out']):
-        # the list the user gets IS the output of the last ordering step
-        c = '(%s, %s)' % (g_reslist(calls[-1]['out'], pay, ist), g_reslist(rec['final'], pay, ist))
-        if ('same', c) not in seen:
-            seen.add(('same', c))
-            coq_cases['same'].append(c)
+        coq.add(stream + '-same', '(JSame %s %s)' % (g_reslist(calls[-1]['out'], pay, ist), g_reslist(rec['final'], pay, ist)),
+                'the list returned by infer/get_references is the output of the ordering step', meta)
     if method in ('goto', 'goto_fi') and calls and calls[-1]['kind'] == 'list' \
             and all(res_ok(r) for r in rec['final'] + calls[-1]['inp']):
         fin = sorted(rec['final'], key=key_of)
-        c = '(%s, %s)' % (g_reslist(calls[-1]['inp'], pay, ist), g_reslist(fin, pay, ist))
-        if ('goto', c) not in seen:
-            seen.add(('goto', c))
-            coq_cases['goto'].append(c)
+        coq.add(stream + '-goto', '(JGoto %s %s)' % (g_reslist(calls[-1]['inp'], pay, ist), g_reslist(fin, pay, ist)),
+                'Script.goto result (as a set) vs goto_canon of the captured enumeration', meta)
     if 'comp' in rec:
         cp = rec['comp']
         cpay = Numbering()
         gi = g_list([g_cres(e[1], e[2], e[3], cpay) for e in cp['enum']], lambda x: x, 'cres')
         go = g_list([g_cres(o[0], False, o[2], cpay) for o in rec['final']], lambda x: x, 'cres')
-        c = '(%s, %s, %s)' % (g_str(cp['like']), gi, go)
-        if ('comp', c) not in seen:
-            seen.add(('comp', c))
-            coq_cases['comp'].append(c)
-
-
-def new_tie_cases():
-    return dict(sort=[], infer=[], same=[], goto=[], comp=[])
-
-
-def add_tie_jobs(coq, prefix, tc):
-    coq.add(prefix + '-sort', "(fun c => let '(l, o) := c in list_res_eqb (sort_defs l) o)", tc['sort'], 150,
-            'captured helpers.sorted_definitions input/output vs sort_defs')
-    coq.add(prefix + '-infer', "(fun c => let '(l, o) := c in list_res_eqb (infer_out l) o)", tc['infer'], 150,
-            'captured enumeration of Script.infer before set() vs infer_out')
-    coq.add(prefix + '-same', "(fun c => let '(l, o) := c in list_res_eqb l o)", tc['same'], 150,
-            'the list returned by infer/get_references is the output of the ordering step')
-    coq.add(prefix + '-goto', "(fun c => let '(l, o) := c in list_res_eqb (goto_canon l) o)", tc['goto'], 150,
-            'Script.goto result (as a set) vs goto_canon of the captured enumeration')
-    coq.add(prefix + '-complete', "(fun c => let '(like, l, o) := c in list_cres_eqb (complete_out like l) o)", tc['comp'], 40,
-            'Script.complete result vs complete_out of the names handed to filter_names')
+        coq.add(stream + '-complete', '(JComp %s %s %s)' % (g_str(cp['like']), gi, go),
+                'Script.complete result vs complete_out of the names handed to filter_names', meta)
 
 
 def classify_difference(method, rec_a, rec_b):
@@ -1106,23 +1125,10 @@ def classify_difference(method, rec_a, rec_b):
                                        b2n('survivor_ambiguous %s' % e1))
 
 
-def report_differences(ctx, stream, diffs):
-    """diffs: list of dict(method, case, query, rec_a, rec_b, extra).  Classify with the model, report."""
-    terms, idx = [], []
-    for i, d in enumerate(diffs):
-        t = classify_difference(d['method'], d['rec_a'], d['rec_b'])
-        if t is not None:
-            terms.append(t)
-            idx.append(i)
-    flags = {}
-    if terms:
-        vals, err = common.coq_eval_N_lists(IMPORTS, '(fun x : list N => x)', terms, shard=20, timeout=900)
-        if err:
-            raise RuntimeError('coq evaluation failed (classification): ' + err)
-        for i, v in zip(idx, vals):
-            flags[i] = v
-    for i, d in enumerate(diffs):
-        f = flags.get(i)
+def report_differences(ctx, coq, stream, diffs):
+    """diffs: list of dict(method, case, query, rec_a, rec_b, cls, extra).  Each difference is classified by the
+    model (evaluated with everything else at the end of the run) and then reported."""
+    def report(d, f):
         predicted = bool(f and f[0] and f[1] and f[2] and (f[3] or f[4]))
         mech = 'none'
         if f:
@@ -1137,7 +1143,7 @@ def report_differences(ctx, stream, diffs):
                     line=d['query'][1], column=d['query'][2], model_flags=f,
                     observed_a=d['rec_a'].get('final', d['rec_a'].get('exc')),
                     observed_b=d['rec_b'].get('final', d['rec_b'].get('exc')), **d.get('extra', {}))
-        if d['method'] in ('complete', 'complete_fuzzy'):
+        if m in ('complete', 'complete_fuzzy'):
             data['types_a'], data['types_b'] = d['rec_a'].get('types'), d['rec_b'].get('types')
         what = ('%s: Script.%s at %d:%d gives different results %s' % (
             stream, m, d['query'][1], d['query'][2],
@@ -1145,10 +1151,15 @@ def report_differences(ctx, stream, diffs):
             else '- NOT explained by the enumeration order of the same results'))
         ctx.deviation(sig, data, what)
 
+    for d in diffs:
+        t = classify_difference(d['method'], d['rec_a'], d['rec_b'])
+        if t is None:
+            report(d, None)
+        else:
+            coq.classify(t, (lambda v, d=d: report(d, v)))
+
 
 def analyse_xproc(ctx, coq, cases, variants, results):
-    tc = new_tie_cases()
-    seen = set()
     diffs = []
     dist = {}
     n_multi = 0
@@ -1168,7 +1179,7 @@ def analyse_xproc(ctx, coq, cases, variants, results):
             n_multi += nres >= 2
             ctx.count('xproc', (case['source'], case['path'] is not None, q), nontrivial=nres >= 2, n=len(recs))
             for r in recs:
-                tie_cases_from(method, r, tc, seen)
+                tie_cases_from(coq, 'xproc', method, r, dict(source=case['source'], path=case['path'], query=q))
             base = views[0]
             for vi in range(1, len(views)):
                 if views[vi] != base:
@@ -1183,8 +1194,7 @@ def analyse_xproc(ctx, coq, cases, variants, results):
     ctx.stat('xproc_methods', dist)
     ctx.stat('xproc_variants', [dict(hashseed=h, perturb=p) for h, p in variants])
     ctx.stat('xproc_differing_queries', len(diffs))
-    report_differences(ctx, 'xproc', diffs)
-    add_tie_jobs(coq, 'xproc', tc)
+    report_differences(ctx, coq, 'xproc', diffs)
     for case in cases:
         for qi, q in enumerate(case['queries']):
             r = results[0]['%d:%d' % (case['id'], qi)]
@@ -1470,10 +1480,8 @@ def make_repeat_tasks(ctx, cases):
 
 
 def analyse_repeat(ctx, coq, tasks, results):
-    tc = new_tie_cases()
-    seen = set()
     diffs = []
-    trace_cases, trace_metas = [], []
+    trace_metas = []
     stats = dict(queries=0, raising=0, failing_kinds={}, long_traces=0, traced=0, nonidle=0, max_trace=0)
 
     def check_transients(task, q, rec, where):
@@ -1505,11 +1513,11 @@ def analyse_repeat(ctx, coq, tasks, results):
                                              events=[e for e in rec['trace'] if g_event(e) is None][:5], query=q), nofail=True)
             return
         stats['traced'] += 1
-        c = '(%s, %s)' % (g_list(evs, lambda x: x, 'event'), g_obs(aft))
-        if c not in seen:
-            seen.add(c)
-            trace_cases.append(c)
-            trace_metas.append(dict(source=task['case']['source'], query=q, where=where, after=aft, n_events=len(evs)))
+        meta = dict(source=task['case']['source'], query=q, where=where, after=aft, n_events=len(evs))
+        coq.add('transients-trace', '(JTrace %s %s)' % (g_list(evs, lambda x: x, 'event'), g_obs(aft)),
+                'the writes recorded during a query, replayed by run_trace from the idle state, give the transient '
+                'state read back after it', meta)
+        trace_metas.append(meta)
 
     for task, res in zip(tasks, results):
         if 'error' in res:
@@ -1519,12 +1527,12 @@ def analyse_repeat(ctx, coq, tasks, results):
         fviews = [final_view(q[0], r) for q, r in zip(pool, fresh)]
         for q, r in zip(pool, fresh):
             check_transients(task, q, r, 'fresh')
-            tie_cases_from(q[0], r, tc, seen)
+            tie_cases_from(coq, 'repeat', q[0], r, dict(source=case['source'], path=case['path'], query=q))
 
         def compare(qi, rec, where):
             q = pool[qi]
             check_transients(task, q, rec, where)
-            tie_cases_from(q[0], rec, tc, seen)
+            tie_cases_from(coq, 'repeat', q[0], rec, dict(source=case['source'], path=case['path'], query=q, history=where))
             v = final_view(q[0], rec)
             nres = len(rec.get('final', [])) if rec['ok'] else -1
             ctx.count('repeat', (case['source'], q, where), nontrivial=nres >= 2 or not rec['ok'])
@@ -1551,12 +1559,7 @@ def analyse_repeat(ctx, coq, tasks, results):
             uniq.add(k)
             keep.append(d)
     ctx.stat('repeat', dict(stats, differing=len(keep)))
-    report_differences(ctx, 'repeat', keep)
-    add_tie_jobs(coq, 'repeat', tc)
-    coq.add('transients-trace',
-            "(fun c => let '(tr, o) := c in obs_eqb (run_trace tr idle_state) o)", trace_cases, 60,
-            'the writes recorded during a query, replayed by run_trace from the idle state, give the transient state read back after it',
-            metas=trace_metas)
+    report_differences(ctx, coq, 'repeat', keep)
     if trace_metas:
         m = max(trace_metas, key=lambda x: x['n_events'])
         ctx.sample(dict(stream='transients', query=m['query'], events=m['n_events'], state_after=m['after']))
@@ -1572,7 +1575,7 @@ def run(ctx):
         'pipeline: seeded stub engine results through Script.infer/goto/get_references/complete; '
         'xproc: corpus + generated projects (sibling modules, ternaries, if/else of different classes, redefinitions, '
         'case-variant attributes) x sampled name positions x all query methods x {PYTHONHASHSEED 0,1,12345,seeded-random} x heap perturbation, '
-        'one process per variant, a fresh Script per query; '
+        'one process per variant, one Script per case, same query sequence in every process; '
         'repeat/transients: per case a pool of <= 8 queries (out-of-range and crashing ones included): ordered pairs + '
         'permutations/repetitions on one Script vs a fresh Script; non-trivial = >= 2 results or a raising query; distinct by input')
     ctx.assumptions += [
@@ -1583,7 +1586,7 @@ def run(ctx):
         'transient tie: traces longer than %d writes are checked by the before/after oracle only' % MAX_TRACE]
     coq = CoqJobs(ctx)
     # inputs first (deterministic in the seed), then start the separate processes, then the in-process streams
-    nproj = ctx.n(7, 40)
+    nproj = ctx.n(5, 40)
     cases = make_cases(ctx.rng, nproj, os.path.join(ctx.tmp, 'proj'))
     ctx.stat('cases', dict(n=len(cases), with_path=sum(1 for c in cases if c['path']),
                            queries=sum(len(c['queries']) for c in cases)))
